@@ -214,12 +214,18 @@ def c02(tier):
     chk.notes['compiled_programs'] = len(recs)
     chk.notes['rejected_by_compiler'] = len(progs) - len(recs)
     started = set()
-    batch = 300
-    for b in range(0, len(recs), batch):
+    batch = 130
+    from concurrent.futures import ThreadPoolExecutor
+
+    def verify(b):
         part = recs[b:b + batch]
         path = os.path.join(wd, 'c02.%d.ndjson' % b)
         write_ndjson(path, part)
-        r = tlc_or_die('FMLVerifier', env={'BCS': path}, workers=8, timeout=1800, tag='c02v')
+        return part, tlc_or_die('FMLVerifier', env={'BCS': path}, workers=3, timeout=1800, tag='c02v%d' % b)
+    # the per-batch tables (decoding, reference depth maps, WellFormed) are computed by TLC's main thread: several JVMs side by side
+    with ThreadPoolExecutor(max_workers=5) as ex:
+        runs = list(ex.map(verify, range(0, len(recs), batch)))
+    for part, r in runs:
         chk.add_tlc(r)
         for mline in r.lines.get('METHOD', []):
             started.add((mline['id'], mline['m']))
